@@ -49,6 +49,7 @@ def main():
     for k in (2, 3, 5):
         lps.append(degenerate(ck.rng, k, name="dg%d" % k))
     lps.append(beale())
+    lps += [boxed_ranged(ck.rng, name="bx%d" % i) for i in range(150 if ck.thorough() else 30)]
     # entries / costs below the tolerances of the floating-point stages in shapes that scaling cannot repair
     for k_ in ((30, 35, 40, 45, 50, 60, 80, 120) if ck.thorough() else (35, 40, 60)):
         for r_ in range(2):
